@@ -107,8 +107,8 @@ theorem allocate_matching (g : Bytes) : allocate g false g.length = g := by
   simp [allocate, setLength]
 
 /-- **the task-level model and the segment model agree on every input** -/
-theorem restoreFileTasks_eq (o : Opts) (old : Option Bytes) (mtimeEq : Bool) (blobs : List Bytes) :
-    restoreFileTasks o old mtimeEq blobs = restoreFile o old mtimeEq blobs := by
+theorem restoreFileTasks_eq (o : Opts) (old : Option Bytes) (dm nm : Option MTime) (blobs : List Bytes) :
+    restoreFileTasks o old dm nm blobs = restoreFile o old dm nm blobs := by
   unfold restoreFileTasks restoreFile
   simp only
   by_cases h0 : blobs.flatten.length = 0
@@ -133,7 +133,7 @@ theorem restoreFileTasks_eq (o : Opts) (old : Option Bytes) (mtimeEq : Bool) (bl
           simp [seg, blobMatches_none]
       rw [hnil blobs _ 0 h0]
   · simp only [h0, if_false, false_and]
-    by_cases h1 : o.verify = false ∧ (matchingFile old blobs.flatten.length).isSome = true ∧ mtimeEq = true
+    by_cases h1 : o.verify = false ∧ (matchingFile old blobs.flatten.length).isSome = true ∧ mtimeEq dm nm = true
     · simp only [h1, and_self, if_true]
     · simp only [h1, if_false]
       -- the allocated file and what the tasks make of it
